@@ -1,6 +1,163 @@
-(* placeholder while the cluster is being built *)
-From FC Require Import Compress.Model Compress.Proofs.
+(* Property theorems of the Compress cluster (C33). Statements, [exact], Print Assumptions only.
+   KS = number of writable registry keys (implementation: 2^24 - 1; the key KS itself is
+   RegistryKey::DEFAULT_VALUE), r = temporal registry retention in seconds.  A block is its header,
+   its timestamp and, per transaction, the registry-substituted fields (keyspace, value) in traversal
+   order, plus a marker of its malleable (compress(skip)) fields; the rest of a transaction is
+   carried verbatim by the fuel-compression derive macros (trusted).  [hint]s are the iteration orders of the HashMaps of registrations: every theorem
+   holds for every order. *)
+From FC Require Import Compress.Model Compress.Proofs Compress.Proofs2 Compress.Proofs3.
 Open Scope N_scope.
-Theorem accessible_at_registration : forall r t, is_timestamp_accessible r t t = Some true.
-Proof. exact accessible_now. Qed.
-Print Assumptions accessible_at_registration.
+
+(* C33. For EVERY sequence of blocks (and evictor-cursor presets) compressed in order and
+   decompressed in order, starting from registries with equal tables: every block is compressed,
+   the decompressor returns the original block with its malleable fields reset to their defaults
+   ([strip]: same header, same transaction ids, every registry-substituted field exact), and the
+   registry / timestamp / reverse-index tables of both sides are equal again after the block --
+   across key reuse, eviction of live keys, wrap-around of the key cursor, overwrite and expiry.
+   Hypotheses: the compressor's registry is well formed (reverse index sound, keys writable);
+   every block carries at least its mint transaction and preset cursors are writable keys;
+   block timestamps do not decrease and are not older than the registry (otherwise compression is
+   refused with "Invalid timestamp ordering", see roundtrip_history_any);
+   TERMINATION SIDE CONDITION of CacheEvictor::next_key: per block and keyspace the number of
+   distinct non-default values is below the number of writable keys (then the kept keys plus the
+   new keys never exhaust the key space, which is exactly what the debug_assert of next_key and
+   the termination of its while loop need). *)
+Theorem roundtrip_history_up_to_malleable : forall KS r ops C D T,
+  0 < KS -> WF KS C -> tables_eq C D -> ts_le T C ->
+  Forall (fun oh => op_wf KS (fst oh)) ops ->
+  Forall (fun oh => op_fits KS (fst oh)) ops ->
+  times_mono T ops ->
+  history_all KS r C D ops.
+Proof. exact roundtrip_history_all. Qed.
+Print Assumptions roundtrip_history_up_to_malleable.
+
+(* The literal statement of C33 -- every block is reproduced EXACTLY -- holds for the histories
+   outside the known class K-C33-malleable, i.e. when no transaction carries a non-default
+   malleable (fuel-tx compress(skip)) field ... *)
+Theorem roundtrip_history_partial : forall KS r ops C D T,
+  0 < KS -> WF KS C -> tables_eq C D -> ts_le T C ->
+  Forall (fun oh => op_wf KS (fst oh)) ops ->
+  Forall (fun oh => op_fits KS (fst oh)) ops ->
+  times_mono T ops ->
+  Forall (fun oh => op_canonical (fst oh)) ops ->
+  history_exact KS r C D ops.
+Proof. exact roundtrip_history_exact_all. Qed.
+Print Assumptions roundtrip_history_partial.
+
+(* ... and is false inside it: one block with one transaction in executed form satisfies every
+   other hypothesis, round-trips up to malleable fields, and is not reproduced exactly. *)
+Theorem roundtrip_history_refuted :
+  exists KS r ops,
+    0 < KS /\ Forall (fun oh => op_wf KS (fst oh)) ops /\ Forall (fun oh => op_fits KS (fst oh)) ops /\
+    times_mono 0 ops /\ ~ Forall (fun oh => op_canonical (fst oh)) ops /\
+    history_all KS r st_empty st_empty ops /\ ~ history_exact KS r st_empty st_empty ops.
+Proof. exact roundtrip_history_refuted_all. Qed.
+Print Assumptions roundtrip_history_refuted.
+
+(* ... in particular when both sides start from the empty registry, as in the harness *)
+Theorem roundtrip_from_empty : forall KS r ops,
+  0 < KS ->
+  Forall (fun oh => op_wf KS (fst oh)) ops ->
+  Forall (fun oh => op_fits KS (fst oh)) ops ->
+  times_mono 0 ops ->
+  history_all KS r st_empty st_empty ops.
+Proof. exact roundtrip_from_empty_all. Qed.
+Print Assumptions roundtrip_from_empty.
+
+(* Without the timestamp and key-space hypotheses: whenever compression returns a compressed
+   block, decompression reproduces the block (up to malleable fields) and the tables stay coupled; a refused block
+   (timestamp ordering, exhausted key space) produces nothing and changes nothing. *)
+Theorem roundtrip_history_any : forall KS r ops C D,
+  0 < KS -> WF KS C -> tables_eq C D -> Forall (fun oh => op_wf KS (fst oh)) ops ->
+  history_ok KS r C D ops.
+Proof. exact roundtrip_history_any_all. Qed.
+Print Assumptions roundtrip_history_any.
+
+(* the inductive step: coupling invariant "compressor registry = decompressor registry" *)
+Theorem roundtrip_one_block : forall KS r C D b hint cb C',
+  0 < KS -> WF KS C -> tables_eq C D -> b_txs b <> [] ->
+  compress_block KS r C b hint = Okay (cb, C') ->
+  exists D', decompress_block KS r D cb = Okay (strip b, D') /\ tables_eq C' D' /\ WF KS C'.
+Proof. exact roundtrip_block. Qed.
+Print Assumptions roundtrip_one_block.
+
+(* the key lemma: a key handed out for value v of keyspace s (default key for the default value,
+   a key registered in this block, or a kept key of a fresh-enough registry entry) still maps to v,
+   with an accessible timestamp, after this block's registrations have been written in any order *)
+Theorem handed_out_key_decodes : forall KS r t st acc cx regs D1 s v k,
+  WF KS st -> cinv KS acc cx ->
+  same_regs (pget regs s) (changes (pget cx s)) ->
+  reg (pget D1 s) = reg_after (pget regs s) t (reg (pget st s)) ->
+  kok KS r t st acc cx s v k ->
+  decompress_item KS r t D1 (s, k) = Okay (s, v).
+Proof. exact decompress_item_ok. Qed.
+Print Assumptions handed_out_key_decodes.
+
+(* keys in use by the current block are never reassigned within it, fresh keys are distinct and
+   writable: the invariant of the CompressCtx pass is kept by every step *)
+Theorem compress_step_invariant : forall KS r t st acc cx s v k cx',
+  0 < KS -> WF KS st -> cinv KS acc cx ->
+  (forall found, v <> 0 -> db_lookup r t (pget st s) v = Okay (Some found) -> In found (pget acc s)) ->
+  compress_item KS r t st cx (s, v) = Okay (k, cx') ->
+  cinv KS acc cx' /\ grows cx cx' /\ kok KS r t st acc cx' s v k.
+Proof. exact compress_item_spec. Qed.
+Print Assumptions compress_step_invariant.
+
+(* CacheEvictor::next_key: terminates (within the fuel of the model) while fewer than KS keys are
+   kept, returns a writable key that was not kept; and the fuel is adequate: the model gives up
+   only when at least KS keys are kept, i.e. when the loop of the implementation would not end *)
+Theorem next_key_terminates : forall KS e,
+  nextk e < KS -> N.of_nat (length (keep e)) < KS -> exists k e', next_key KS e = Some (k, e').
+Proof. exact next_key_total. Qed.
+Print Assumptions next_key_terminates.
+
+Theorem next_key_fresh : forall KS e k e',
+  0 < KS -> nextk e < KS -> next_key KS e = Some (k, e') ->
+  k < KS /\ ~ In k (keep e) /\ keep e' = k :: keep e /\ nextk e' = k.
+Proof. exact next_key_spec. Qed.
+Print Assumptions next_key_fresh.
+
+Theorem next_key_fuel_is_adequate : forall KS e,
+  nextk e < KS -> next_key KS e = None -> KS <= N.of_nat (length (keep e)).
+Proof. exact next_key_fuel_adequate. Qed.
+Print Assumptions next_key_fuel_is_adequate.
+
+(* compression is never refused for a block that is not older than the registry and fits *)
+Theorem compress_never_refused : forall KS r T C b hint,
+  0 < KS -> WF KS C -> ts_le T C -> T <= b_time b -> fits KS (concat (b_items b)) ->
+  exists cb C', compress_block KS r C b hint = Okay (cb, C').
+Proof. exact compress_block_total. Qed.
+Print Assumptions compress_never_refused.
+
+(* Pcheck.  replay_core replays the SPECIFICATION decompressor on the compressed blocks of a trace
+   and compares with the trace's own decompression result and registry tables; replay_okb demands
+   exact transaction equality on top.  Their meaning: *)
+Theorem replay_core_sound : forall KS r ops os S,
+  replay_core KS r S ops os = 1 <-> ReplayCore KS r S ops os.
+Proof. exact replay_core_sound_all. Qed.
+Print Assumptions replay_core_sound.
+
+Theorem replay_checker_sound : forall KS r ops os S,
+  replay_okb KS r S ops os = 1 <-> ReplaySpec KS r S ops os.
+Proof. exact replay_okb_sound_all. Qed.
+Print Assumptions replay_checker_sound.
+
+(* ... and the trace of the model passes: the core for every history and every registration
+   order, the exact checker for every history outside the known class *)
+Theorem model_trace_core_accepted : forall KS r ops C D,
+  0 < KS -> WF KS C -> tables_eq C D -> Forall (fun oh => op_wf KS (fst oh)) ops ->
+  replay_core KS r D (map fst ops) (run_history KS r C D (map fst ops) (map snd ops)) = 1.
+Proof. exact model_trace_core_all. Qed.
+Print Assumptions model_trace_core_accepted.
+
+Theorem model_trace_accepted : forall KS r ops C D,
+  0 < KS -> WF KS C -> tables_eq C D -> Forall (fun oh => op_wf KS (fst oh)) ops ->
+  Forall (fun oh => op_canonical (fst oh)) ops ->
+  replay_okb KS r D (map fst ops) (run_history KS r C D (map fst ops) (map snd ops)) = 1.
+Proof. exact model_trace_accepted_all. Qed.
+Print Assumptions model_trace_accepted.
+
+(* the initial (empty) registries of the harness satisfy the hypotheses *)
+Theorem empty_registry_wf : forall KS T, WF KS st_empty /\ ts_le T st_empty /\ tables_eq st_empty st_empty.
+Proof. intros KS T. exact (conj (WF_empty KS) (conj (ts_le_empty T) (tables_eq_refl st_empty))). Qed.
+Print Assumptions empty_registry_wf.
